@@ -520,6 +520,53 @@ def _is_zero_fill_closure(cl):
     return None
 
 
+def resolve_let(fn, e, depth=3):
+    """follow a mention of an immutable `let` local to its initialiser (the caller must know that what the initialiser reads cannot change in between)"""
+    while depth > 0 and isinstance(e, dict) and e.get("k") == "path" and "::" not in e["p"]:
+        b = binding_of(fn, e, e["p"])
+        if not b or b[0] != "let" or b[1]["pat"].get("k") != "pident" or b[1]["pat"].get("mut") or b[1].get("init") is None:
+            break
+        e = b[1]["init"]
+        depth -= 1
+    return e
+
+
+def inline_self_calls(facts, owner, stmts, depth=2):
+    """Top-level statements `self.helper(args);` calling an inherent method of the same type are replaced by the helper's statements
+    (parameters substituted), so that a body split into private helpers reads like the unsplit body.  Only helpers without `return`,
+    whose value is not used, and whose arguments are plain paths / literals / field reads are inlined; anything else is left alone."""
+    out = []
+    for s in stmts:
+        e = s.get("e") if s.get("k") == "semi" else None
+        if depth > 0 and e is not None and e.get("k") == "mcall" and is_path(e["recv"], "self"):
+            callee = facts.method(owner, e["name"], None)
+            if callee is not None and callee.get("body") and callee.get("receiver") in ("&mut self", "&self") \
+                    and not any(x.get("k") == "return" for x in walk(callee["body"])) \
+                    and all(a.get("k") in ("path", "lit", "field") for a in e["args"]):
+                params = [p["name"] for p in callee["params"] if p.get("name")]
+                if len(params) == len(e["args"]):
+                    env = dict(zip(params, e["args"]))
+                    body = [subst(copy.deepcopy(x), env) for x in callee["body"]["stmts"]]
+                    if body and body[-1].get("k") == "expr":
+                        body[-1] = N("semi", e=body[-1]["e"], ln=body[-1].get("ln", 0))
+                    out.extend(inline_self_calls(facts, owner, body, depth - 1))
+                    continue
+        out.append(s)
+    return out
+
+
+def as_for(e):
+    """`ITER.for_each(|p| body)` at statement level is `for p in ITER { body }`: return the equivalent for-node (else None)."""
+    if isinstance(e, dict) and e.get("k") == "mcall" and e["name"] == "for_each" and len(e["args"]) == 1:
+        cl = e["args"][0]
+        if cl.get("k") == "closure" and len(cl["params"]) == 1 and not any(x.get("k") == "return" for x in walk(cl["body"])):
+            body = cl["body"]
+            if body.get("k") != "block":
+                body = N("block", stmts=[N("semi", e=body, ln=body.get("ln", 0))], ln=body.get("ln", 0))
+            return N("for", pat=cl["params"][0], iter=e["recv"], body=body, ln=e.get("ln", 0))
+    return None
+
+
 def fill_pattern(e):
     """Recognise  X.iter_mut().for_each(|a| *a = V),  X.fill(V),  the nested 2-level forms
     (X.iter_mut().for_each(|c| c.fill(V)), ..) and  `for c in X.iter_mut() { c.fill(V) }` / `{ *c = V }`.
